@@ -362,6 +362,7 @@ def check_source(env_name: str, env: Any, src: str, res: ShardResult | None, dee
                     res.count("foreign_exception_in_parse")
             if template is not None:
                 _ast_problems(env, template, problems)
+                _message_line_problems(src, template, problems)
                 sources = {src} | set(env.loader.templates.values())
                 try:
                     template.render(a=[1, 2], b={"c": "d"}, x="s")
@@ -377,6 +378,57 @@ def check_source(env_name: str, env: Any, src: str, res: ShardResult | None, dee
     if res is not None and nontrivial:
         res.nontrivial.add(h64(src))
     return problems
+
+
+def _line_of(src: str, offset: int) -> int:
+    """1-based line of an offset, by the line conventions of str.splitlines (the ones error messages use)."""
+    n, pos = 1, 0
+    for line in src.splitlines(keepends=True):
+        pos += len(line)
+        if offset < pos:
+            return n
+        n += 1
+    return n
+
+
+def _message_line_problems(src: str, template: Any, problems: list[str]) -> None:
+    """The line reported for a translatable message lies between the line its markup starts on and the line of its text."""
+    from liquid2.messages import extract_from_template
+
+    try:
+        messages = list(extract_from_template(template))
+    except Exception:  # noqa: BLE001  (whether extraction succeeds is C15's subject)
+        return
+    for m in messages:
+        text = m.message[0] if isinstance(m.message[0], str) else m.message[1]
+        if not isinstance(text, str) or not text or "\n" in text or src.count(text) != 1:
+            continue
+        o = src.find(text)
+        start = max(src.rfind("{{", 0, o), src.rfind("{%", 0, o), 0)
+        tr = src.rfind("translate", 0, o)
+        if tr >= 0 and src.rfind("{%", 0, tr) >= 0 and src.find("endtranslate", tr, o) < 0:
+            start = min(start, src.rfind("{%", 0, tr))
+        lo, hi = _line_of(src, start), _line_of(src, o)
+        if not lo <= m.lineno <= hi:
+            problems.append(f"message-line: a translatable message is reported on line {m.lineno}, its markup spans lines {lo}-{hi}")
+        for c in m.comments:
+            # a translator comment belongs to the message on the line after it (or on its own line)
+            co = src.find(c)
+            if co >= 0 and src.count(c) == 1 and not (_line_of(src, co) <= m.lineno <= _line_of(src, co) + 1 or lo <= _line_of(src, co) + 1 <= hi):
+                problems.append("message-line: a translator comment is attached to a message that does not follow it")
+
+
+def message_line_sources() -> list[str]:
+    """A translatable message (filter, tag, with a translator comment before it) after 0..40 lines, under every line
+    convention, with short and long lines before it."""
+    out = []
+    tails = [["{{ 'MSGTXT' | t }}"], ["{# Translators: NOTE #}", "{{ 'MSGTXT' | t }}"], ["{% translate %}MSGTXT{% endtranslate %}"], ["{{ 'MSGTXT' | t }}", "", "{% # Translators: NOTE %}", "{{ 'MSG2' | gettext }}"]]
+    for nl in NEWLINES:
+        for h in range(0, 41):
+            for line in ("x", "text {{ v }} and some more text on this line"):
+                for tail in tails:
+                    out.append(nl.join([line] * h + tail))
+    return out
 
 
 def _outcome_class(env: Any, src: str) -> int:
@@ -453,6 +505,26 @@ LATE_TAILS = [
 ]
 
 
+def path_sources() -> list[str]:
+    """Every variable path with up to three levels of bracketed nesting and up to two segments per level (the innermost
+    level in full, the outer ones with one nested path and at most one ordinary segment on either side of it)."""
+    simple = [".x", "[0]", "['s']"]
+    lvl1 = ["d" + "".join(c) for n_ in range(3) for c in itertools.product(simple, repeat=n_)]
+    lvl2 = []
+    for inner in lvl1:
+        for pre in ("", *simple):
+            for post in ("", *simple):
+                lvl2.append("c" + pre + "[" + inner + "]" + post)
+    lvl3 = []
+    for inner in lvl2[::3] + lvl2[1::7]:
+        for pre in ("", ".x", "[0]"):
+            for post in ("", ".y"):
+                lvl3.append("b" + pre + "[" + inner + "]" + post)
+    out = ["{{ " + p_ + " }}" for p_ in lvl1 + lvl2 + lvl3]
+    out += ["{% if a[" + p_ + "] == " + p_ + " %}{% endif %}{{ x | append: " + p_ + " }}" for p_ in lvl2[::5] + lvl3[::11]]
+    return out
+
+
 def line_sources() -> list[str]:
     """Multi-line sources under every line convention str.splitlines knows, with the error on the LAST line."""
     out = []
@@ -469,6 +541,8 @@ def corpus(tier: str) -> list[str]:
 
     base = list(RICH)
     base += line_sources()
+    base += message_line_sources()
+    base += path_sources()
     base += impl.corpus_templates()
     base += grammar.printed_corpus(tier)
     seen: dict[str, None] = {}
